@@ -135,10 +135,10 @@
   (family-result count bad firsts))
 
 # for each exponent field in es: every mantissa with at most two bits set, both signs
-(defn- do-twobit [es]
+(defn- do-twobit [es signs]
   (var count 0) (var bad 0) (def firsts @[])
   (each e es
-    (each s [0 2147483648]
+    (each s signs
       (def hi0 (+ s (* e 1048576)))
       (defn one [m]
         (def x (verif/bits-to-double (+ hi0 (math/floor (/ m 4294967296))) (% m 4294967296)))
@@ -277,7 +277,7 @@
     :f32 (do-f32 (item 1) (item 2) (item 3))
     :f32sub (do-f32sub (item 1) (item 2))
     :lo-range (do-lo-range (item 1) (item 2) (item 3))
-    :twobit (do-twobit (item 1))
+    :twobit (do-twobit (item 1) (item 2))
     :pow2 (do-pow2 (item 1) (item 2))
     :threebit (do-threebit (item 1) (item 2))
     :stride (do-stride (item 1) (item 2))
